@@ -24,10 +24,10 @@
 //! Events
 //!   {"op":"new","part":"art",kind,variant,loader,fault,"len":n,"bytes":[..],"x":extra,"base":code,"md5":hex}
 //!   {"op":"check","seq":1}                                   (fault = produce: format self-validation)
-//!   {"op":"flip","seq":n,"pos":p,"v":[8 codes]}              code of flipping bit 0..7 of byte p
-//!   {"op":"subst","seq":n,"pos":p,"vals":[..],"v":[..]}      byte p replaced by vals[i]
-//!   {"op":"trunc","seq":n,"m0":m,"v":[..]}                   artifact cut to length m0, m0+1, ...
-//!   {"op":"extend","seq":n,"n":k,"fill":"zero"|"ff"|"tail","v":[code]}
+//!   {"op":"flip","seq":n,"ps":[p..],"v":[[8 codes]..]}       v[a][i]: bit i of byte ps[a] flipped (<= 32 positions)
+//!   {"op":"subst","seq":n,"ps":[p..],"vals":[[..]..],"v":[[..]..]}   byte ps[a] replaced by vals[a][i]
+//!   {"op":"trunc","seq":n,"ms":[m..],"v":[..]}               artifact cut to length ms[a]
+//!   {"op":"extend","seq":n,"ns":[k..],"fills":["zero"|"ff"|"tail"..],"v":[..]}   ns[a] bytes appended
 //!   codes: 0 = load failed (Err/None), 1 = reported invalid, 2 = accepted, logical content unchanged,
 //!          3 = accepted, logical content differs from the undamaged artifact's, 4 = panic,
 //!          5 = the load requested a single allocation of >= 2 GiB (see `Guard`)
@@ -467,61 +467,67 @@ fn run_art(prog: &Value, out: &Emit) {
         seq += 1;
         seq
     };
+    const BLOCK: usize = 32;
     match fault {
         "produce" => out.ev(json!({"op": "check", "seq": next()})),
         "flip" => {
             let mut w = art.clone();
-            for p in (0..len).filter(|&p| visited(p, len, stride, edge)) {
-                let mut v = Vec::with_capacity(8);
-                for bit in 0..8 {
-                    w[p] = art[p] ^ (1 << bit);
-                    v.push(code(&w, &ctx, &base));
+            let ps: Vec<usize> = (0..len).filter(|&p| visited(p, len, stride, edge)).collect();
+            for blk in ps.chunks(BLOCK) {
+                let mut vs = Vec::with_capacity(blk.len());
+                for &p in blk {
+                    let mut v = Vec::with_capacity(8);
+                    for bit in 0..8 {
+                        w[p] = art[p] ^ (1 << bit);
+                        v.push(code(&w, &ctx, &base));
+                    }
+                    w[p] = art[p];
+                    vs.push(v);
                 }
-                w[p] = art[p];
-                out.ev(json!({"op": "flip", "seq": next(), "pos": p, "v": v}));
+                out.ev(json!({"op": "flip", "seq": next(), "ps": blk, "v": vs}));
             }
         }
         "subst" => {
             let all = len <= 64;
             let mut w = art.clone();
             let mut rng = Rng::new(0xC07 ^ len as u64);
-            for p in (0..len).filter(|&p| visited(p, len, stride, edge)) {
-                let vals: Vec<u8> = if all {
-                    (0..=255u8).filter(|&x| x != art[p]).collect()
-                } else {
-                    let mut c = vec![art[p] ^ 0xFF, art[p].wrapping_add(1), if art[p] == 0 { 0x20 } else { 0 }];
-                    let r = (rng.next() & 0xFF) as u8;
-                    if r != art[p] {
-                        c.push(r);
+            let ps: Vec<usize> = (0..len).filter(|&p| visited(p, len, stride, edge)).collect();
+            for blk in ps.chunks(if all { 2 } else { BLOCK }) {
+                let (mut valss, mut vs) = (vec![], vec![]);
+                for &p in blk {
+                    let vals: Vec<u8> = if all {
+                        (0..=255u8).filter(|&x| x != art[p]).collect()
+                    } else {
+                        let mut c = vec![art[p] ^ 0xFF, art[p].wrapping_add(1), if art[p] == 0 { 0x20 } else { 0 }];
+                        let r = (rng.next() & 0xFF) as u8;
+                        if r != art[p] {
+                            c.push(r);
+                        }
+                        c.sort_unstable();
+                        c.dedup();
+                        c
+                    };
+                    let mut v = Vec::with_capacity(vals.len());
+                    for &x in &vals {
+                        w[p] = x;
+                        v.push(code(&w, &ctx, &base));
                     }
-                    c.sort_unstable();
-                    c.dedup();
-                    c
-                };
-                let mut v = Vec::with_capacity(vals.len());
-                for &x in &vals {
-                    w[p] = x;
-                    v.push(code(&w, &ctx, &base));
+                    w[p] = art[p];
+                    valss.push(vals);
+                    vs.push(v);
                 }
-                w[p] = art[p];
-                out.ev(json!({"op": "subst", "seq": next(), "pos": p, "vals": vals, "v": v}));
+                out.ev(json!({"op": "subst", "seq": next(), "ps": blk, "vals": valss, "v": vs}));
             }
         }
         "trunc" => {
             let ms: Vec<usize> = (0..len).filter(|&m| visited(m, len, stride, edge)).collect();
-            // consecutive lengths are reported together
-            let mut i = 0;
-            while i < ms.len() {
-                let m0 = ms[i];
-                let mut v = vec![];
-                while i < ms.len() && ms[i] == m0 + v.len() && v.len() < 64 {
-                    v.push(code(&art[..ms[i]], &ctx, &base));
-                    i += 1;
-                }
-                out.ev(json!({"op": "trunc", "seq": next(), "m0": m0, "v": v}));
+            for blk in ms.chunks(8 * BLOCK) {
+                let v: Vec<u8> = blk.iter().map(|&m| code(&art[..m], &ctx, &base)).collect();
+                out.ev(json!({"op": "trunc", "seq": next(), "ms": blk, "v": v}));
             }
         }
         "extend" => {
+            let (mut ns, mut fills, mut v) = (vec![], vec![], vec![]);
             for k in [1usize, 2, 4, 8, 16, 20, 24, 28, 30, 40, 64, 512, 1024, 4096] {
                 for fill in ["zero", "ff", "tail"] {
                     let mut w = art.clone();
@@ -535,9 +541,12 @@ fn run_art(prog: &Value, out: &Emit) {
                             w.extend_from_slice(&art[len - k..]);
                         }
                     }
-                    out.ev(json!({"op": "extend", "seq": next(), "n": k, "fill": fill, "v": [code(&w, &ctx, &base)]}));
+                    ns.push(k);
+                    fills.push(fill);
+                    v.push(code(&w, &ctx, &base));
                 }
             }
+            out.ev(json!({"op": "extend", "seq": next(), "ns": ns, "fills": fills, "v": v}));
         }
         f => panic!("driver: unknown fault class {f}"),
     }
@@ -596,7 +605,7 @@ fn run_val(prog: &Value, out: &Emit) {
             }
         });
         seq += 1;
-        out.ev(json!({"op": "validate", "seq": seq, "api": api, "rel": c["rel"], "data": content(&data), "ck": ck,
+        out.ev(json!({"op": "validate", "seq": seq, "api": api, "rel": c["rel"], "n": c["n"], "data": content(&data), "ck": ck,
                       "res": r.unwrap_or_else(|_| "panic".into())}));
     }
 }
